@@ -32,7 +32,7 @@ NAMES = {"Closed": "Closed", "WaitConnAck": "Wait-Conn-Ack", "WaitICEA": "Wait-I
 BASE_EVENTS = ["ack", "nack", "cer", "cer-wrong-host", "cer-wrong-realm", "cer-missing-avp", "cer-extra-flag",
                "cea", "cea-wrong-host", "cea-wrong-realm", "cea-missing-avp", "cea-extra-flag",
                "dwr", "dwr-wrong-host", "dwr-pair", "dwa", "dpr", "dpr-wrong-host", "dpr-busy", "dpa",
-               "app-req", "app-ans", "misaddressed-req", "local-stop", "fin", "rst", "idle", "restart", "app-req-pair-dwr"]
+               "app-req", "app-ans", "misaddressed-req", "local-stop", "fin", "rst", "idle", "restart", "app-req-pair-dwr", "app-req-binary"]
 UNEXPECTED = {"cer-wrong-host", "cer-wrong-realm", "cer-missing-avp", "cer-extra-flag", "cea-wrong-host", "cea-wrong-realm",
               "cea-missing-avp", "cea-extra-flag", "dwr-wrong-host", "dpr-wrong-host", "misaddressed-req"}
 
@@ -44,7 +44,7 @@ GUIDE = {
               "app-req", "app-ans", "fin", "rst"],
     "ClosedS": ["cer", "cer", "cer", "cer", "cer-wrong-host", "cer-wrong-realm", "cer-missing-avp", "cer-extra-flag", "dwr", "dpr", "app-req",
                 "cea", "dwa", "dpa", "fin", "rst"],
-    "Open": ["dwr", "dwr", "dwr-pair", "dwr-wrong-host", "dwa", "dpr", "dpr-wrong-host", "dpr-busy", "dpa", "app-req", "app-req", "app-ans",
+    "Open": ["dwr", "dwr", "dwr-pair", "dwr-wrong-host", "dwa", "dpr", "dpr-wrong-host", "dpr-busy", "dpa", "app-req", "app-req", "app-req-binary", "app-ans",
              "app-req-pair-dwr", "misaddressed-req", "local-stop", "fin", "rst", "idle", "cer", "cer-wrong-host", "cea", "cea-wrong-host"],
     "Closing": ["dpa", "dpa", "dpa", "fin", "rst", "dwr", "app-req", "dwa"],
     "Ended": ["restart"],
@@ -314,9 +314,12 @@ class Run:
                 det = dict(next="Closed", out={(257, False): 0})
             else:
                 nxt = poss0 | {"Closed"}
-        elif e in ("app-req", "app-ans", "misaddressed-req", "app-req-pair-dwr"):
+        elif e in ("app-req", "app-ans", "misaddressed-req", "app-req-pair-dwr", "app-req-binary"):
             if e == "app-req":
                 w.feed(app_request(hbh, e2e, dest_realm=LOCAL["realm"]))
+            elif e == "app-req-binary":
+                # AVP payloads are opaque to the state machine: a User-Name that is not UTF-8 is still an application message
+                w.feed(app_request(hbh, e2e, dest_realm=LOCAL["realm"], user=b"\xff\xfe\x00user\x80"))
             elif e == "app-ans":
                 w.feed(app_answer(hbh, e2e))
             elif e == "app-req-pair-dwr":
@@ -516,7 +519,7 @@ def _collect(shard, seed, n):
     return col
 
 
-EXH_ALPHABET = ["dwr", "dwr-pair", "dwr-wrong-host", "dwa", "dpr", "dpr-busy", "dpr-wrong-host", "dpa", "app-req", "app-ans",
+EXH_ALPHABET = ["app-req-binary", "dwr", "dwr-pair", "dwr-wrong-host", "dwa", "dpr", "dpr-busy", "dpr-wrong-host", "dpa", "app-req", "app-ans",
                 "misaddressed-req", "local-stop", "fin", "rst", "cer", "cer-wrong-host", "cea", "cea-wrong-realm", "restart", "ack", "nack"]
 
 
